@@ -6533,7 +6533,9 @@ impl Machine {
 
     #[inline(always)]
     pub(crate) fn inference_limit_exceeded(&mut self) {
-        self.machine_st.fail = !self.machine_st.cwil.inference_limit_exceeded;
+        // reporting the condition ends it: an enclosing limit goes on counting.
+        let exceeded = std::mem::take(&mut self.machine_st.cwil.inference_limit_exceeded);
+        self.machine_st.fail = !exceeded;
     }
 
     #[inline(always)]
